@@ -448,6 +448,88 @@ def roundtrip_part(p, part, nparts, thorough):
                         w.name for w in wbranches]))
 
 
+NUMBERS = [0, 1, 2, 8, 10, 11, 18]
+NUMBERS_T = [0, 1, 2, 8, 9, 10, 11, 18, 20, 100, 101]
+
+
+def numeric_part(p, part, nparts, thorough):
+    """Version numbers whose components repeat or share digits (1.1.1.1,
+    10.0.0.10, 4.0.18.8, 11.1.11.1): every tuple over a small number set, for
+    every robot and destination name built on it."""
+    core.import_berte()
+    from bert_e.workflow.gitwaterflow import branches as B
+    from bert_e.workflow.gitwaterflow import queueing as Q
+    from bert_e import exceptions as X
+    repo = FakeRepo()
+    nums = NUMBERS_T if thorough else NUMBERS
+    DEST = {1: 'development/%s', 2: 'development/%s', 3: 'stabilization/%s',
+            4: 'hotfix/%s'}
+    idx = -1
+    for n in (1, 2, 3, 4):
+        for tup in itertools.product(nums, repeat=n):
+            idx += 1
+            if idx % nparts != part:
+                continue
+            ver = '.'.join(str(x) for x in tup)
+            vt = pad(tup)
+            base = '.'.join(str(x) for x in tup[:3])
+            dest_name = DEST[n] % (base if n == 4 else ver)
+            case = {'version': ver}
+            checks = []
+            try:
+                q = B.branch_factory(repo, 'q/' + ver)
+                checks.append(('q/' + ver, type(q).__name__ == 'QueueBranch'
+                               and (q.major, q.minor, q.micro, q.hfrev) == vt
+                               and q.dst_branch.name == dest_name and
+                               type(q.dst_branch).__name__ == {
+                                   1: 'DevelopmentBranch',
+                                   2: 'DevelopmentBranch',
+                                   3: 'StabilizationBranch',
+                                   4: 'HotfixBranch'}[n],
+                               'queue of %s, got %s' % (
+                                   dest_name, getattr(getattr(
+                                       q, 'dst_branch', None), 'name', None))))
+                for name, cls in (('w/%s/bugfix/TEST-1' % ver,
+                                   'IntegrationBranch'),
+                                  ('q/w/7/%s/bugfix/TEST-1' % ver,
+                                   'QueueIntegrationBranch')):
+                    b = B.branch_factory(repo, name)
+                    checks.append((name, type(b).__name__ == cls and
+                                   (b.major, b.minor, b.micro, b.hfrev) == vt
+                                   and b.version == ver and
+                                   b.feature_branch == 'bugfix/TEST-1',
+                                   'version tuple %s' % (vt,)))
+                if True:
+                    d = B.branch_factory(repo, dest_name)
+                    want = tup[:3]
+                    got = tuple(x for x in (
+                        d.major, d.minor,
+                        d.micro if n >= 3 else None) if x is not None)
+                    checks.append((dest_name, got == want and
+                                   d.version == (base if n == 4 else ver),
+                                   'components %s' % (want,)))
+                    # the queue Bert-E derives for this destination maps back
+                    if n == 4:
+                        d.hfrev = tup[3]
+                        d.version = ver
+                    job = SimpleNamespace(git=SimpleNamespace(repo=repo))
+                    qb = Q.get_queue_branch(job, d)
+                    back = B.branch_factory(repo, qb.name)
+                    checks.append((qb.name, qb.name == 'q/' + ver and
+                                   back.dst_branch.name == dest_name,
+                                   'derived queue of %s maps back to it' %
+                                   dest_name))
+            except (X.UnrecognizedBranchPattern, X.BranchNameInvalid) as e:
+                checks.append((ver, False, 'name rejected: %r' % (e,)))
+            for name, ok, what in checks:
+                p.evaluations += 1
+                p.nontrivial += 1
+                if not ok:
+                    p.mismatch('numeric:%s' % name,
+                               '%r does not parse as expected (%s)' % (
+                                   name, what), dict(case, name=name))
+
+
 def run(tier, seed, workers=None):
     thorough = tier == 'thorough'
     cr = CheckResult(PROP, 'exploration')
@@ -455,9 +537,14 @@ def run(tier, seed, workers=None):
                          workers=workers)
     tot2 = core.run_parts(roundtrip_part, 32, extra=(thorough,),
                           workers=workers)
+    tot3 = core.run_parts(numeric_part, 16, extra=(thorough,),
+                          workers=workers)
     kinds = sorted(k[5:] for k in tot.counters if k.startswith('kind:'))
     n_class = tot.evaluations
-    tot.evaluations += tot2.evaluations
+    tot.evaluations += tot2.evaluations + tot3.evaluations
+    tot.nontrivial += tot3.nontrivial
+    tot.mismatches += tot3.mismatches
+    tot.error = tot.error or tot3.error
     tot.nontrivial += tot2.nontrivial
     tot.mismatches += tot2.mismatches
     tot.samples += tot2.samples
@@ -471,10 +558,13 @@ def run(tier, seed, workers=None):
              'robot names) compared with a split-based reference parser; '
              'round trip through the real create_integration_branches / '
              'get_queue_branch / get_queue_integration_branch for every '
-             'feature-like source x 4 target lists x 2 ids; non-trivial = '
+             'feature-like source x 4 target lists x 2 ids; every version '
+             'tuple of length 1-4 over {0,1,2,8,10,11,18} in q/, w/, q/w/ '
+             'and destination names (digit collisions); non-trivial = '
              'accepted by the grammar (classification) or any round trip',
         extra={'names_classified': n_class,
-               'roundtrips': tot2.evaluations, 'kinds_seen': kinds},
+               'roundtrips': tot2.evaluations,
+               'numeric_names': tot3.evaluations, 'kinds_seen': kinds},
         assumptions=['ASCII names without newline (git ref syntax)'])
 
 
